@@ -242,6 +242,8 @@ def sig_of_abort(err):
         return 'signed-overflow'
     if 'heap-buffer-overflow' in err or 'stack-buffer-overflow' in err or 'global-buffer-overflow' in err:
         return 'buffer-overflow'
+    if 'allocation-size-too-big' in err or 'out-of-memory' in err or 'exceeds maximum supported size' in err:
+        return 'alloc-too-big'
     if 'AddressSanitizer' in err:
         m = re.search(r'AddressSanitizer: ([\w-]+)', err)
         return 'asan-' + (m.group(1) if m else 'other')
@@ -363,6 +365,11 @@ def run(ck):
             kind = sig_of_abort(aborts[i])
             hist_out['abort:' + kind] = hist_out.get('abort:' + kind, 0) + 1
             where = where_of_abort(aborts[i])
+            if kind in ('alloc-too-big', 'asan-allocator', 'asan-requested', 'asan-out-of-memory', 'asan-allocation-size-too-big'):
+                hist_out['abort:alloc-too-big(asan-artifact)'] = hist_out.get('abort:alloc-too-big(asan-artifact)', 0) + 1
+                # ASan turns a failing `operator new` (allocation by a hostile count, > max_allocation_size_mb)
+                # into a fatal report; without ASan this is std::bad_alloc, i.e. an exception: not a violation
+                continue
             if m_out == 'ub:' + kind:
                 sig = 'ub:%s:%s' % (kind, where)
                 what = 'undefined behaviour in the reader (%s at %s) on input %r; the model predicts it' % (kind, where, d[:80])
@@ -463,7 +470,7 @@ def run(ck):
                                'harness/h_nlread.cc recording handler + error-class mapping; checks/c02.py oracle and comparison']
 
 
-EXPECT_THEOREMS = 4
+EXPECT_THEOREMS = 8
 
 
 def replay(ck, path):
